@@ -3,7 +3,7 @@
 1. WireTLS.tla = the observer (two automata over abstract records + the session-id echo) and a sender model of the
    two endpoints at the granularity "one conn.Write = one record".  TLC checks that the observer accepts
    everything the sender model emits under the size constants READ FROM THE CODE UNDER TEST, and that it rejects
-   what the four seeded defects emit (negative configurations: the rules are not vacuous).
+   what the five seeded defects emit (negative configurations: the rules are not vacuous).
 2. The rig (harness/server/c10_test.go): real client + real server over the in-memory network, the tap of every
    connection parsed by the independent parser harness/kit/tlsparse.go; one abstract event per record.
 3. WireTLSTrace.tla validates every recorded connection with the same observer; the Go driver judges the same
@@ -80,6 +80,7 @@ def run(ctx):
         "neg_no_echo": pool.submit(_mc, ctx, "neg_no_echo", dev='{"NoEcho"}', inv="ObserverAccepts", k=k, wire=16401, write=16640),
         "neg_version_34": pool.submit(_mc, ctx, "neg_version_34", dev='{"Ver34"}', inv="ObserverAccepts", k=k, wire=16401, write=16640),
         "neg_empty_notice": pool.submit(_mc, ctx, "neg_empty_notice", dev='{"EmptyNotice"}', inv="ObserverAccepts", k=k, wire=16401, write=16640),
+        "neg_empty_frame_sent": pool.submit(_mc, ctx, "neg_empty_frame_sent", dev='{"EmptyFrameSent"}', inv="ObserverAccepts", k=k, wire=16401, write=16640),
         "neg_limit_16700": pool.submit(_mc, ctx, "neg_limit_16700", inv="ObserverAccepts", k=k, wire=16700, write=16700),
     }
     mcr = {n: f.result() for n, f in mc.items()}
@@ -88,7 +89,7 @@ def run(ctx):
             raise lib.Inconclusive("negative configuration %s was not rejected by the observer (got %s): the grammar would be vacuous" % (n, r.violated))
     model_ok = mcr["mc_code_constants"].ok
     if model_ok:
-        ctx.log("observer accepts the sender model under the code's constants (%d distinct states); 4 negative configurations rejected"
+        ctx.log("observer accepts the sender model under the code's constants (%d distinct states); 5 negative configurations rejected"
                 % mcr["mc_code_constants"].distinct)
     else:
         # not a verdict yet: the recorded connections decide (a model counter-example must be reproduced on the code)
@@ -166,8 +167,8 @@ def run(ctx):
         "distinct_nontrivial": g["distinct_nontrivial"],
         "rule": "one evaluation = one rig scenario (browser signature x server name incl. random/RANDOM x encryption method x NumConn "
                 "{1,2,4}, singleplex, unordered x traffic pattern: small, multiframe up to 3x16 KiB, manystreams, target-closes, banner, "
-                "server-close via ActiveUser.CloseSession, inactivity, idle, link fault, abrupt client close, pipelined), plus the parser self-test "
-                "inputs; quick = two rounds of the full product (2 x 432 scenarios), thorough = 40 rounds with fresh names / sizes / seeds; distinct = "
+                "server-close via ActiveUser.CloseSession, inactivity, idle, link fault, abrupt client close, pipelined, empty-from-target = UDP-style proxy target whose answer contains empty datagrams (server relay Stream.ReadFrom sees (0, nil)), empty-from-app = RouteTCP-style client relay of a local connection that reads (0, nil)), plus the parser self-test "
+                "inputs; quick = two rounds of the full product (2 x 516 scenarios), thorough = 40 rounds with fresh names / sizes / seeds; distinct = "
                 "distinct scenario signatures; non-trivial = session established, application records in both directions beyond the handshake",
         "samples": g["samples"],
         "traces_validated_against_impl": conns_ok,
@@ -178,7 +179,7 @@ def run(ctx):
         "code_constants": k,
         "level_note": LEVEL_NOTE,
         "exhaustive": False,
-        "checker_cmd": "tlc WireTLS.tla (5 configurations) / WireTLSTrace.tla (one run per trace file) + go test -run 'TestVerifC10(Rig|Parser)'",
+        "checker_cmd": "tlc WireTLS.tla (6 configurations) / WireTLSTrace.tla (one run per trace file) + go test -run 'TestVerifC10(Rig|Parser)'",
         "harness_stats": st,
     }
     ctx.notes.append(LEVEL_NOTE)
